@@ -437,6 +437,8 @@ func reenactMain(args []string) {
 	}
 	all = append(all, done...)
 	prerun(all, *par)
+	var unreproduced []string
+	anyReproduced := false
 	for _, sig := range sigs {
 		chosen := chosenBy[sig]
 		reproduced := 0
@@ -463,9 +465,16 @@ func reenactMain(args []string) {
 			}
 		}
 		if reproduced == 0 {
-			fatal(fmt.Errorf("TLC counterexample %s could not be reproduced on the real server (%d schedules tried): %s; e.g. %s",
+			// never a verdict; it only becomes an infrastructure failure if NO counterexample could be
+			// reproduced (a cycle through a map-ordered loop such as LIST may not be steerable)
+			unreproduced = append(unreproduced, fmt.Sprintf("TLC counterexample %s could not be reproduced on the real server (%d schedules tried): %s; e.g. %s",
 				sig, len(chosen), lastWhy, chosen[0].describe()))
+		} else {
+			anyReproduced = true
 		}
+	}
+	if len(unreproduced) > 0 && !anyReproduced {
+		fatal(fmt.Errorf("%s", unreproduced[0]))
 	}
 	// complete schedules: the real server must be able to follow what the model allows
 	followed, diverged := 0, 0
@@ -520,6 +529,7 @@ func reenactMain(args []string) {
 	sum["diverged"] = diverged
 	sum["diverged_examples"] = divs
 	sum["samples"] = samples
+	sum["unreproduced"] = unreproduced
 	out.Summary(sum)
 }
 
